@@ -3,6 +3,8 @@ package eval
 import (
 	"errors"
 	"fmt"
+	"maps"
+	"slices"
 
 	"github.com/cedar-policy/cedar-go/internal/consts"
 	"github.com/cedar-policy/cedar-go/internal/extensions"
@@ -735,8 +737,10 @@ func newRecordLiteralEval(elements map[types.String]Evaler) *recordLiteralEval {
 
 func (n *recordLiteralEval) Eval(env Env) (types.Value, error) {
 	vals := types.RecordMap{}
-	for k, en := range n.elements {
-		v, err := en.Eval(env)
+	// Evaluate the entries in key order, not in Go map order: when more than one entry fails, the error that is
+	// reported must not change from one evaluation to the next.
+	for _, k := range slices.Sorted(maps.Keys(n.elements)) {
+		v, err := n.elements[k].Eval(env)
 		if err != nil {
 			return zeroValue(), err
 		}
